@@ -5,7 +5,7 @@ layer file is created with truncation and named after apk's spelling of the arch
 the OCI architecture name is not: arm/v6 and arm/v7).  Facts regenerated from pkg/build/build.go and
 pkg/options/options.go on every run; the end-to-end cases of corr:tar find the failing inputs.
 -/
-import Apko.Generated.Glue
+import Apko.Generated.GlueLayer
 
 namespace Apko.C06.Glue
 open Apko
